@@ -59,8 +59,31 @@ QPatterns == { k \in { BNorm(Pad(d1, 8) \o Pad(d2, 8) \o Pad(d3, 8) \o Pad(d4, 8
 OddSeeds == { N(3), BSub(Two64, <<59>>), BAdd(Two192, <<1, 1>>), BSub(Two255, <<19>>), FromBE(<<151, 3, 98, 241, 7, 201, 33, 119, 45, 12, 250, 66, 8, 19, 200, 5, 91, 77, 31, 2, 160, 14, 9, 101, 55, 240, 18, 6, 73, 99, 1, 37>>) }
 QPairs(p) == LET cand == { << s, BMod(BMul(BSub(Two256, BMod(BMul(k, p), Two256)), InvModR(s)), Two256) >> : k \in QPatterns, s \in OddSeeds }
              IN { pr \in cand : BLess(pr[2], p) /\ BLess(pr[1], p) }
+\* the same for the interleaved sum of products (imaginary coefficient of an Fq2 product: a0 b1 + a1 b0): for a prescribed quotient k,
+\* b1 = (-k p - a1 b0) a0^-1 (mod 2^256) with a0 odd; quadruples <<a0, a1, b0, b1>> kept when b1 < p
+SopSeeds == { << BSub(Two255, <<19>>), BAdd(Two192, <<7, 1>>), BSub(Two64, <<59>>) >>,
+              << N(3), BSub(Two255, <<21>>), BAdd(Two128, <<17>>) >>,
+              << BAdd(Two192, <<1, 1>>), N(5), BSub(Two255, <<201>>) >> }          \* <<a0 (odd), a1, b0>>
+SopQuads(p) == LET cand == { << sd[1], sd[2], sd[3],
+                                BMod(BMul(BSub(BMul(Two256, Two256), BAdd(BMod(BMul(k, p), Two256), BMod(BMul(sd[2], sd[3]), Two256))), InvModR(sd[1])), Two256) >>
+                             : k \in QPatterns, sd \in SopSeeds }
+               IN { c \in cand : BLess(c[4], p) }
+\* near-equal family (for ==): Montgomery representations that differ in ONE limb, or in TWO limbs by the SAME xor-free delta
+\* (limb_i + d, limb_j + d), or by different deltas - a comparison that folds limb differences together must still separate them
+LimbAt(m, i) == BNorm(SubSeq(Pad(m, 32), 8 * (i - 1) + 1, 8 * i))
+WithLimb(m, i, v) == BNorm(SubSeq(Pad(m, 32), 1, 8 * (i - 1)) \o Pad(v, 8) \o SubSeq(Pad(m, 32), 8 * i + 1, 32))
+Bump(m, i, d) == WithLimb(m, i, BMod(BAdd(LimbAt(m, i), d), Two64))
+EqBases(p) == { <<>>, <<1>>, BSub(p, <<1>>), BDiv(p, <<2>>), BSub(Two255, <<19>>), BAdd(Two192, <<7, 1>>), BAdd(Two128, BSub(Two64, <<59>>)),
+                FromBE(<<18, 52, 86, 120, 154, 188, 222, 241, 1, 2, 3, 4, 5, 6, 7, 8, 9, 10, 11, 12, 13, 14, 15, 16, 17, 18, 19, 20, 21, 22, 23, 24>>) }
+EqDeltas == { <<1>>, Pad(<<>>, 7) \o <<128>>, BSub(Two64, <<1>>), FromBE(<<165, 90, 60, 195, 15, 240, 51, 204>>) }
+EqPairs(p) == LET one == { << m, Bump(m, i, d) >> : m \in EqBases(p), i \in 1..4, d \in EqDeltas }
+                  two == { << m, Bump(Bump(m, ij[1], d), ij[2], d) >> : m \in EqBases(p), ij \in { <<1,2>>, <<1,3>>, <<1,4>>, <<2,3>>, <<2,4>>, <<3,4>> }, d \in EqDeltas }
+                  mix == { << m, Bump(Bump(m, 3, d), 4, BMod(BAdd(d, d), Two64)) >> : m \in EqBases(p), d \in EqDeltas }
+              IN { pr \in one \cup two \cup mix : BLess(pr[1], p) /\ BLess(pr[2], p) }
 Enc32(a) == ToBE(a, 32)
-PoolOf(p) == [ qpairs |-> SetToSeq({ << Enc32(OutOfMont(p, pr[1])), Enc32(OutOfMont(p, pr[2])) >> : pr \in QPairs(p) }),
+PoolOf(p) == [ eqpairs |-> SetToSeq({ << Enc32(OutOfMont(p, pr[1])), Enc32(OutOfMont(p, pr[2])) >> : pr \in EqPairs(p) }),
+               sopq |-> IF p = Q THEN SetToSeq({ << Enc32(OutOfMont(p, c[1])), Enc32(OutOfMont(p, c[2])), Enc32(OutOfMont(p, c[3])), Enc32(OutOfMont(p, c[4])) >> : c \in SopQuads(p) }) ELSE <<>>,
+               qpairs |-> SetToSeq({ << Enc32(OutOfMont(p, pr[1])), Enc32(OutOfMont(p, pr[2])) >> : pr \in QPairs(p) }),
                vpairs |-> SetToSeq({ << Enc32(OutOfMont(p, pr[1])), Enc32(OutOfMont(p, pr[2])) >> : pr \in VPairs(p) }),
                vsq |-> IF p = Q THEN SetToSeq({ Enc32(OutOfMont(p, m)) : m \in VSquares }) ELSE <<>>,
                hi |-> SetToSeq({ Enc32(OutOfMont(p, m)) : m \in HiRes(p) }),
